@@ -374,7 +374,17 @@ impl World {
 
     /// Run until nothing is runnable and no event is pending, or the step cap is hit.
     pub fn run(&self) -> Stop {
+        self.run_steps(u64::MAX)
+    }
+
+    /// Like `run`, but returns after at most `max` scheduler steps.
+    pub fn run_steps(&self, max: u64) -> Stop {
+        let mut left = max;
         loop {
+            if left == 0 {
+                return Stop::Quiescent;
+            }
+            left -= 1;
             enum Pick {
                 Task(u64, Runnable),
                 Thread(u64),
